@@ -272,6 +272,9 @@ func runMerge(a, b *tree, pol string, fos []fieldOpt, repr string, rng *rand.Ran
 				return
 			}
 			src = s
+		case "self":
+			// the destination merged into ITSELF (only used for cases whose two operands are equal)
+			src = dst
 		case "cfg":
 			srcCfg, err = ucfg.NewFrom(b.goOrdered(rng), srcOpts...)
 			if err != nil {
@@ -410,7 +413,13 @@ func mergeReplay(args []string) int {
 			h = h*131 + int64(ch)
 		}
 		rng := rand.New(rand.NewSource(*seed ^ h))
-		for _, repr := range rl {
+		reprs := rl
+		if ja, _ := json.Marshal(c.A); true {
+			if jb, _ := json.Marshal(c.B); string(ja) == string(jb) && !hasAlias(c.B) {
+				reprs = append(append([]string{}, rl...), "self") // c.Merge(c, policy): the same outcome as merging an equal config
+			}
+		}
+		for _, repr := range reprs {
 			var first *mergeOutcome
 			for k := 0; k < *repeat; k++ {
 				var r *rand.Rand
